@@ -1,6 +1,6 @@
 (* C04 — clustering is a pure function of the ordered fingerprints and parameters; memory
    is only ever released inside the mapped file and behind the read cursor.  Statements only. *)
-From BB Require Import Model.Birch Model.Mem Proofs.MemFacts Proofs.FitChunks Proofs.GenTie Gen.GMem.
+From BB Require Import Model.Birch Model.Mem Proofs.MemFacts Proofs.FitChunks Proofs.GenTieMem Gen.GMem.
 Open Scope Z_scope.
 
 (* every madvise(DONTNEED) range: a whole 2 MiB step from the start of the mapping, only
